@@ -469,14 +469,11 @@ impl<'a> Searcher<'a> {
                             .enumerate()
                             .map(|(idx, i)| {
                                 if let Some(a) = a.get(*i) {
-                                    if let Ok(a) = a.1.parse::<i64>() {
+                                    if let Ok(a) = a.1.parse::<f64>() {
                                         if let Some(b) = b.get(*i) {
-                                            if let Ok(b) = b.1.parse::<i64>() {
-                                                return if directions[idx] { 
-                                                    a.cmp(&b) 
-                                                } else { 
-                                                    b.cmp(&a) 
-                                                };
+                                            if let Ok(b) = b.1.parse::<f64>() {
+                                                let ord = a.partial_cmp(&b).unwrap_or(std::cmp::Ordering::Equal);
+                                                return if directions[idx] { ord } else { ord.reverse() };
                                             }
                                         }
                                     }
